@@ -430,6 +430,34 @@ func Transport(r *sim.Run, top *[]*UNode, nOps int, deep bool, kinds []string) [
 			*lv.list = nl
 			done = append(done, TransportOp{"largesize", where, c.Type})
 			r.Fault("unit-largesize-header")
+		case "version": // a FullBox whose version byte holds a value the standard has not defined (2..4, 255)
+			var cands []int
+			for k, n := range list {
+				if n.IsCont || len(n.Raw) < 4 {
+					continue
+				}
+				switch n.Type {
+				case "tfdt", "sidx", "prft", "subs", "mvhd", "tkhd", "mdhd", "mehd", "elst", "ctts", "trun", "emsg", "sgpd",
+					"sbgp", "saio", "saiz", "pssh", "tenc", "cslg", "tfra", "mfro", "stts", "stss", "stsz", "hdlr", "vmhd", "smhd", "trex", "tfhd", "mfhd", "kind", "elng", "ssix", "leva", "trep":
+					cands = append(cands, k)
+				}
+			}
+			if len(cands) == 0 {
+				continue
+			}
+			k := cands[t.Draw(len(cands))]
+			c := list[k].clone()
+			c.Raw = append([]byte(nil), c.Raw...)
+			old := c.Raw[0]
+			c.Raw[0] = byte(2 + t.Draw(3))
+			if t.Chance(100) {
+				c.Raw[0] = 255
+			}
+			nl := append([]*UNode(nil), list...)
+			nl[k] = c
+			*lv.list = nl
+			done = append(done, TransportOp{"version", where, fmt.Sprintf("%s v%d->v%d", c.Type, old, c.Raw[0])})
+			r.Fault("unit-undefined-version")
 		case "splice":
 			u := ForeignUnit(t, rnd)
 			at := t.Draw(len(list) + 1)
